@@ -1,6 +1,6 @@
 (** C10 — changing representation loses nothing: the obligations, written out in full. *)
 From Coq Require Import List NArith ZArith String.
-From SK Require Import lib.LGraph lib.StrJoin model.C10_Model model.C10_Text model.C10_Rxn proof.C10_Rxn proof.C10_ImpH proof.C10_HRoundIts proof.C10_Text proof.C10_Proof proof.C10_Hydrogen proof.C10_Routes proof.C10_GmlWrite proof.C10_HRound proof.C10_Routes2 proof.C10_Reindex proof.C10_MolGraph proof.C10_Smart proof.C10_GmlEH proof.C10_Select proof.C10_MolOk proof.C10_Full proof.C10_Attrs proof.C10_Light proof.C10_ReindexEH.
+From SK Require Import lib.LGraph lib.StrJoin model.C10_Model model.C10_Text model.C10_Rxn proof.C10_Rxn proof.C10_ImpH proof.C10_HRoundIts proof.C10_GmlEHFull proof.C10_Text proof.C10_Proof proof.C10_Hydrogen proof.C10_Routes proof.C10_GmlWrite proof.C10_HRound proof.C10_Routes2 proof.C10_Reindex proof.C10_MolGraph proof.C10_Smart proof.C10_GmlEH proof.C10_Select proof.C10_MolOk proof.C10_Full proof.C10_Attrs proof.C10_Light proof.C10_ReindexEH.
 Import ListNotations.
 Local Open Scope Z_scope.
 
@@ -497,3 +497,35 @@ Theorem C10_h_to_implicit_edge_natural :
   forall (F : eatt -> eatt) (G : gr), h_to_implicit (emap F G) = emap F (h_to_implicit G).
 Proof. exact h_to_implicit_emap. Qed.
 Print Assumptions C10_h_to_implicit_edge_natural.
+
+(** ITS -> GML -> ITS with explicit_hydrogen=True for an ITS WITH implicit hydrogens (a full ITS; closes the "left undone" item
+    of rounds 2-4).  NXToGML writes the context section from h_to_explicit(context): every implicit hydrogen becomes a context
+    atom "H" with a context bond "-" to its atom; the reader copies context atoms and bonds into both sides.  For every ITS c in
+    the domain [its_ok] the graph read back is c WITH ITS HYDROGENS EXPLICIT, E = normalize_edge_orders (h_to_explicit c):
+    exactly the atoms of E (the atoms of c plus one hydrogen atom per implicit hydrogen), at each the element and both charges
+    (for a new hydrogen: "H", 0, 0), and exactly the bond dictionaries of E (those of c, plus (1, 1) between a hydrogen and
+    its atom).  What E looks like is C10_h_explicit_skeleton_any_mode / C10_h_total_explicit: the atoms and bonds of c are
+    untouched and the hydrogen count is kept.  For [hc_free] graphs E has the lookups of c: C10_gml_roundtrip_explicit_h. *)
+Theorem C10_gml_roundtrip_explicit_h_full :
+  forall c : gr, its_ok c = true ->
+    let E := normalize_edge_orders (h_to_explicit c None false) in
+    let I' := gml_to_its (its_to_gml c false false true) in
+    (forall n, has_node I' n = has_node E n) /\
+    (forall n a, label E n = Some a ->
+       label I' n = Some (gml_node n (tg_el (tG_of a)) (tg_ch (tG_of a)) (tg_ch (tH_of a)))) /\
+    (forall u v, adj I' u v = adj E u v).
+Proof. exact gml_roundtrip_eh_full. Qed.
+Print Assumptions C10_gml_roundtrip_explicit_h_full.
+
+(** _synchronize_nodes_and_edges for ANY context and side graph (context bonds missing from the side are added, bonds the side
+    already has win; context atoms are added / their dictionaries updated): the two lookups of the result. *)
+Theorem C10_sync_side_lookups :
+  forall (ctx side : gr), gwfb ctx = true ->
+    (forall u v, adj (sync_side ctx side) u v = match adj side u v with Some y => Some y | None => adj ctx u v end) /\
+    (forall n, label (sync_side ctx side) n =
+               match label ctx n with
+               | Some a => Some (match label side n with Some old => na_update a old | None => a end)
+               | None => label side n
+               end).
+Proof. exact sync_side_lookups. Qed.
+Print Assumptions C10_sync_side_lookups.
